@@ -544,6 +544,11 @@ where
             self.io.start_timer(params.timeout);
 
             log::trace!("{}: Start frame read timer {:?}", self.io.tag(), params.timeout);
+        } else if self.flags.contains(Flags::KA_ENABLED) && !self.flags.contains(Flags::KA_TIMEOUT)
+        {
+            // partial frame without read rate control, keep-alive period still applies
+            self.flags.insert(Flags::KA_TIMEOUT);
+            self.io.start_timer(self.keepalive_timeout);
         }
     }
 
